@@ -34,7 +34,7 @@ from .. import gen, impl, ser
 
 ID = "C07"
 LEVEL = "proof"
-PROPS_MODULE = "SymmModel.Props.C07All4"
+PROPS_MODULE = "SymmModel.Props.C07All5"
 THEOREMS = [
     "SymmModel.C07.plan_certificate_sound",
     "SymmModel.C07.plan_certificate_size",
@@ -93,9 +93,19 @@ THEOREMS = [
     "SymmModel.C07.reshape_roundtrip_abelian",
     "SymmModel.C07.planner_forward_plan_runs",
     "SymmModel.C07.reshape_roundtrip_fermionic_runs",
-    "SymmModel.C07.reshape_roundtrip_abelian_runs"
+    "SymmModel.C07.reshape_roundtrip_abelian_runs",
+    "SymmModel.C07.callsOk_of_runs",
+    "SymmModel.C07.planner_calls_ok",
+    "SymmModel.C07.reshape_roundtrip_fermionic_general",
+    "SymmModel.C07.reshape_roundtrip_abelian_general",
+    "SymmModel.C07.reshape_roundtrip_fermionic_shapes",
+    "SymmModel.C07.reshape_roundtrip_abelian_shapes",
+    "SymmModel.C07.planner_total_items",
+    "SymmModel.C07.reshape_roundtrip_fermionic_items",
+    "SymmModel.C07.reshape_roundtrip_abelian_items",
+    "SymmModel.C07.roundtrip_expansion_counterexample"
 ]
-LEAN_FILES = ["SymmModel.Model.ReshapePlan", "SymmModel.Model.Reshape", "SymmModel.Driver.ReshapeH", "SymmModel.Proofs.C07", "SymmModel.Proofs.C07T4", "SymmModel.Proofs.C07T5_1", "SymmModel.Proofs.C07T5_2", "SymmModel.Proofs.C07T5_3", "SymmModel.Proofs.C07T5_4", "SymmModel.Proofs.C07T5_6", "SymmModel.Props.C07", "SymmModel.Props.C07b", "SymmModel.Props.C07All", "SymmModel.Proofs.ReshapeMore", "SymmModel.Proofs.Reshape3a", "SymmModel.Proofs.Reshape3b", "SymmModel.Proofs.Reshape3c", "SymmModel.Proofs.Reshape3d", "SymmModel.Proofs.Reshape3e", "SymmModel.Proofs.Reshape3f", "SymmModel.Proofs.Reshape3g", "SymmModel.Proofs.Reshape3h", "SymmModel.Proofs.Reshape3i", "SymmModel.Proofs.Reshape3j", "SymmModel.Props.C07c", "SymmModel.Props.C07All2", "SymmModel.Proofs.Reshape4a", "SymmModel.Proofs.Reshape4b", "SymmModel.Proofs.Reshape4c", "SymmModel.Proofs.Reshape4d", "SymmModel.Proofs.Reshape4e", "SymmModel.Proofs.Reshape4f", "SymmModel.Proofs.Reshape4g", "SymmModel.Props.C07d", "SymmModel.Props.C07All3", "SymmModel.Proofs.Reshape5a", "SymmModel.Proofs.Reshape5b", "SymmModel.Proofs.Reshape5c", "SymmModel.Proofs.Reshape5d", "SymmModel.Proofs.Reshape5e", "SymmModel.Proofs.Reshape5f", "SymmModel.Proofs.Reshape5g", "SymmModel.Props.C07e", "SymmModel.Props.C07All4"]
+LEAN_FILES = ["SymmModel.Model.ReshapePlan", "SymmModel.Model.Reshape", "SymmModel.Driver.ReshapeH", "SymmModel.Proofs.C07", "SymmModel.Proofs.C07T4", "SymmModel.Proofs.C07T5_1", "SymmModel.Proofs.C07T5_2", "SymmModel.Proofs.C07T5_3", "SymmModel.Proofs.C07T5_4", "SymmModel.Proofs.C07T5_6", "SymmModel.Props.C07", "SymmModel.Props.C07b", "SymmModel.Props.C07All", "SymmModel.Proofs.ReshapeMore", "SymmModel.Proofs.Reshape3a", "SymmModel.Proofs.Reshape3b", "SymmModel.Proofs.Reshape3c", "SymmModel.Proofs.Reshape3d", "SymmModel.Proofs.Reshape3e", "SymmModel.Proofs.Reshape3f", "SymmModel.Proofs.Reshape3g", "SymmModel.Proofs.Reshape3h", "SymmModel.Proofs.Reshape3i", "SymmModel.Proofs.Reshape3j", "SymmModel.Props.C07c", "SymmModel.Props.C07All2", "SymmModel.Proofs.Reshape4a", "SymmModel.Proofs.Reshape4b", "SymmModel.Proofs.Reshape4c", "SymmModel.Proofs.Reshape4d", "SymmModel.Proofs.Reshape4e", "SymmModel.Proofs.Reshape4f", "SymmModel.Proofs.Reshape4g", "SymmModel.Props.C07d", "SymmModel.Props.C07All3", "SymmModel.Proofs.Reshape5a", "SymmModel.Proofs.Reshape5b", "SymmModel.Proofs.Reshape5c", "SymmModel.Proofs.Reshape5d", "SymmModel.Proofs.Reshape5e", "SymmModel.Proofs.Reshape5f", "SymmModel.Proofs.Reshape5g", "SymmModel.Props.C07e", "SymmModel.Props.C07All4", "SymmModel.Proofs.Reshape6a", "SymmModel.Proofs.Reshape6b", "SymmModel.Proofs.Reshape6c", "SymmModel.Proofs.Reshape6d", "SymmModel.Proofs.Reshape6e", "SymmModel.Proofs.Reshape6f", "SymmModel.Props.C07f", "SymmModel.Props.C07All5"]
 RULE = (
     "planner: the whole stated domain on every run (exhaustive, both directions) plus a seeded "
     "random extension; arrays: random sparse abelian/fermionic arrays (<= 4 axes, block sizes "
@@ -115,7 +125,7 @@ ASSUMPTIONS = [
     "newshape entries that are still negative after find_full_reshape are outside the model (never generated)",
     "the kernel-checked planner table speaks about symbolic (dense-product) shapes; sparse arrays, whose fused sizes shrink, are covered by the per-call certificate check (monitor) and the array stream",
 ]
-PLANNED = ["plan shape from the shapes alone for merged runs containing size-one axes (runs of sizes >= 2 proved)", "callsOkB for every list of admissible runs (decidable hypothesis)", "round trip for plans with expansions", "inputs with densely fused axes", "planner totality for every merge/drop target of unbounded shapes (finite table proved)"]
+PLANNED = ["normalisation lemma: every merge/drop target written as an ItemsOk item list (the theorems are stated on the planner's own reading of the shapes)", "inputs with densely fused axes", "element-exact forward statement with explicit signs for several groups"]
 TRUSTED_EXTRA = [
     "the Python enumeration of merge/drop targets equals the Lean enumeration `targets` (compared on every run for all 3 905 shapes)",
 ]
